@@ -491,9 +491,10 @@ func (pr *ProtoArray) FindHead(anchorRoot Root, anchorSlot Slot) (NodeRef, error
 // InSubtree checks if root is in the subtree of the anchor.
 // If the roots are the same, it still counts as in the subtree.
 func (pr *ProtoArray) InSubtree(anchor Root, root Root) (unknown bool, inSubtree bool) {
-	// equal roots count as in-subtree.
+	// equal roots count as in-subtree, if the root is known at all.
 	if anchor == root {
-		return false, true
+		_, ok := pr.blockSlots[anchor]
+		return !ok, ok
 	}
 	if !pr.updatedConnections {
 		if err := pr.updateConnections(); err != nil {
